@@ -584,6 +584,6 @@ def _replay(spec):
     else:
         return {'violated': False, 'error': 'unknown scenario %s' % kind}
     out = {'violated': bool(failed), 'failed': failed, 'new_cap': new_cap}
-    if spec.get('expect_new_cap') is not None and not failed and kind != 'history' and new_cap != spec['expect_new_cap']:
+    if spec.get('expect_new_cap') is not None and not failed and kind in ('integrate', 'predict', 'split', 'constructor') and new_cap != spec['expect_new_cap']:
         out['cap_mismatch'] = True
     return out
